@@ -118,11 +118,14 @@ def check(prog, run):
                         if lib:
                             raisers[id(n)] = (callee.qualname, lib)
 
-        def ev(n, enders=enders, raisers=raisers):
+        from ..canon import Canon
+        canon2 = Canon(f.node)
+
+        def ev(n, enders=enders, raisers=raisers, canon2=canon2):
             h = hook_name(n)
             if h in ("on_execution_start", "on_execution_end"):
                 return h
-            if isinstance(n, ast.Call) and isinstance(n.func, ast.Attribute) and n.func.attr == "map_value" and len(n.args) >= 2 \
+            if isinstance(n, ast.Call) and canon2.func_text(n).endswith(".map_value") and len(n.args) >= 2 \
                     and isinstance(n.args[1], ast.Name) and n.args[1].id in enders:
                 return "on_execution_end"
             if isinstance(n, ast.Call) and id(n) in raisers:
@@ -240,10 +243,12 @@ def check(prog, run):
             run.report(r, "%s:MultiInstrumentation.%s:shape" % (INSTR, h), m.where(), "not a single loop over the instrumentations")
             continue
         lp = loops[0]
-        it = ast.unparse(lp.iter)
+        from ..canon import Canon
+        lp_iter = Canon(m.node).expr(lp.iter)   # the iterable may be named in a local first
+        it = ast.unparse(lp_iter)
         rev = it.endswith("[::-1]") or it.startswith("reversed(")
         # the iterated collection is the full member list: the attribute __init__ binds to its *args (unfiltered)
-        base_expr = lp.iter
+        base_expr = lp_iter
         if isinstance(base_expr, ast.Subscript):
             base_expr = base_expr.value
         elif isinstance(base_expr, ast.Call) and base_expr.args:
@@ -333,7 +338,7 @@ def check(prog, run):
     shapes.require(bool(miss), "C16.H5: no cache-miss return path found in field_resolver")
     for k, st, env in miss:
         if not any(isinstance(c.func, ast.Name) and c.func.id == "apply_middlewares" for c in env.get(boolx.CALLS, ())):
-            cond = ", ".join("%s=%s" % kv for kv in sorted(env.items()) if kv[0] not in (boolx.CALLS, boolx.STMTS))
+            cond = ", ".join("%s=%s" % kv for kv in sorted(env.items()) if kv[0] not in boolx.META)
             run.report(r, "%s:Executor.field_resolver:path-without-middlewares" % EXE, fr.where(st),
                        "with middlewares configured, field_resolver can return a resolver that did not go through apply_middlewares "
                        "(when %s): those fields are resolved outside every middleware" % cond)
